@@ -529,7 +529,7 @@ func (proj *Project) loadModule(waiter *module, label *label.Label) (starlark.St
 		return m.wait(waiter)
 	}
 
-	m := &module{label: label, out: newLineWriter(label, proj.events)}
+	m := &module{label: label, out: newLineWriter(label, currentEvents{proj: proj})}
 	m.cond = sync.NewCond(&m.m)
 	proj.modules[label.String()] = m
 	proj.m.Unlock()
@@ -568,7 +568,7 @@ func (proj *Project) loadFunction(m *module, l *label.Label, dependencies, sourc
 		docs:     docs,
 		function: fn,
 		always:   always,
-		out:      newLineWriter(l, proj.events),
+		out:      newLineWriter(l, currentEvents{proj: proj}),
 	}
 	proj.targets[rawlabel] = &runTarget{target: f}
 	proj.m.Unlock()
